@@ -169,6 +169,8 @@ structure Env where
   merge : Bool           -- the cycle's patch has dict content (progress, results, touch-dummy removal)
   otherChanging : Bool   -- some non-requiring changing handler prematches the object
   otherDelays : Bool     -- delays of other changing handlers (optional deletion handlers, retries)
+  mergeChanges : Bool    -- the dict content changes the object (a merge patch that changes nothing — e.g. the
+                         -- constant result of an on.event handler — is answered with the old version: NO event)
   delReset : Bool        -- this handling pass leaves the mandatory deletion handlers UNFINISHED again: their
                          -- finished record was purged (at the completion of an earlier pass, or because they
                          -- were not selected in a pass that closed: repair 2ae938f) and they are re-invoked
@@ -284,6 +286,12 @@ inductive ReachG (own : String) : State → Prop where
   | init {s} : Init s → ReachG own s
   | step {s l s'} : ReachG own s → Guard s l → step own s l = some s' → ReachG own s'
 
+/-- The surroundings of a cycle in which nothing else goes on: a consistent state, a patch without dict
+content, no other handler's delay, no re-scheduled deletion handler. -/
+def quiet : Env :=
+  { consistent := true, merge := false, otherChanging := false, otherDelays := false, mergeChanges := false,
+    delReset := false }
+
 /-- The labels of one processing cycle that nobody interferes with. -/
 def cycleLabels (e : Env) : List Label :=
   [Label.decide e] ++ (if e.merge then [Label.mergePatch] else []) ++ [Label.jsonPatch false]
@@ -298,5 +306,103 @@ inductive ReachGH (own : String) : State → Bool → Prop where
   | init {s} : Init s → ReachGH own s false
   | step {s l s' held} : ReachGH own s held → Guard s l → step own s l = some s' →
       ReachGH own s' (if episode s' then (if episode s then held else decide (own ∈ s'.fins)) else false)
+
+/-! ## Wake-ups: when is the next cycle of the object due?
+
+  The LTS above lets a cycle start at any moment. Whether one DOES start is the business of this layer,
+  which wraps a base state with what triggers the object's worker (`queueing.worker` takes one watch event
+  per cycle; `application.apply` ends a cycle that returned delays by sleeping and then touching the object):
+    `events`    — watch events of the object not yet taken by the worker. Every stored new version is one
+                  (foreign writes, the deletion mark, the operator's own accepted writes); a restarted
+                  operator gets one from the listing; a request that changes nothing brings none.
+    `sleeping`  — the last cycle returned delays and its patch was EMPTY: the worker sleeps in
+                  `application.apply` and will touch the object (label `touch` → one more event).
+                  With a non-empty patch the sleep is skipped ("the patch's event will wake us").
+    `cyc…`      — what `apply` knows about the cycle in flight.
+  `decide e` takes one event; it may find the state inconsistent (`e.consistent = false`, the early
+  `return`) only while a further event is still queued: the worker waits for the version of its own last
+  patch only if that patch changed the object (repair 460c956), and that version then arrives as an event. -/
+
+structure LState where
+  base : State
+  events : Nat
+  sleeping : Bool
+  cycDelays : Bool      -- the cycle in flight returned non-empty delays
+  cycMerge : Bool       -- its patch has dict content
+  cycChanges : Bool     -- … which changes the object
+  deriving DecidableEq, Repr
+
+inductive LLabel where
+  | base (l : Label)
+  | touch               -- the sleep ends undisturbed: `patch_and_check(touch)` — a write, hence an event
+  deriving DecidableEq, Repr
+
+/-- `application.apply`: sleep iff there are delays and the patch was empty (no dict content, no fns). -/
+def sleepsAfter (delays merge : Bool) (fns : List Fn) : Bool := delays && !merge && fns.isEmpty
+
+def lstep (own : String) (s : LState) : LLabel → Option LState
+  | .touch =>
+      if s.sleeping && s.base.pending.isNone && !s.base.gone
+      then some { s with sleeping := false, events := s.events + 1 } else none
+  | .base l =>
+    match l with
+    | .decide e =>
+        if s.events = 0 then none
+        else if !e.consistent && s.events < 2 then none
+        else (step own s.base l).map fun b =>
+          { base := b, events := s.events - 1, sleeping := false,
+            cycDelays := (decision (inputs own s.base e)).delays, cycMerge := e.merge, cycChanges := e.mergeChanges }
+    | .mergePatch =>
+        (step own s.base l).map fun b => { s with base := b, events := s.events + (if s.cycChanges then 1 else 0) }
+    | .jsonPatch _ =>
+        (step own s.base l).map fun b =>
+          if b.rv != s.base.rv then { s with base := b, events := s.events + 1 }     -- the accepted write is an event
+          else { s with base := b,
+                        sleeping := sleepsAfter s.cycDelays s.cycMerge (match s.base.pending with | some p => p.fns | none => []) }
+    | .restart =>
+        (step own s.base l).map fun b =>
+          { base := b, events := 1, sleeping := false, cycDelays := false, cycMerge := false, cycChanges := false }
+    | _ =>   -- foreign writes and completions: a new version is an event
+        (step own s.base l).map fun b => { s with base := b, events := s.events + (if b.rv != s.base.rv then 1 else 0) }
+
+def lrun (own : String) (s : LState) : List LLabel → Option LState
+  | [] => some s
+  | l :: ls => (lstep own s l).bind (fun s' => lrun own s' ls)
+
+/-- A starting operator finds the object in its listing. -/
+def LInit (s : LState) : Prop :=
+  Init s.base ∧ s.events = 1 ∧ s.sleeping = false ∧ s.cycDelays = false ∧ s.cycMerge = false ∧ s.cycChanges = false
+
+/-- What the liveness theorems assume of the environment (everything else is free):
+no HTTP 422 is injected without a real concurrent write, and the dict content of a patch, if any,
+changes the object (the excluded case is the open finding F7: a no-op patch with delays loses the wake-up). -/
+def LGuard : LLabel → Prop
+  | .base (.jsonPatch forced) => forced = false
+  | .base (.decide e) => e.merge = true → e.mergeChanges = true
+  | _ => True
+
+inductive LReach (own : String) : LState → Prop where
+  | init {s} : LInit s → LReach own s
+  | step {s l s'} : LReach own s → lstep own s l = some s' → LReach own s'
+
+inductive LReachG (own : String) : LState → Prop where
+  | init {s} : LInit s → LReachG own s
+  | step {s l s'} : LReachG own s → LGuard l → lstep own s l = some s' → LReachG own s'
+
+/-- The operator's own labels (nothing of the environment). -/
+def LLabel.isOperator : LLabel → Bool
+  | .touch => true
+  | .base (.decide _) => true
+  | .base .mergePatch => true
+  | .base (.jsonPatch f) => !f
+  | _ => false
+
+/-- The object waits for its release: it exists, is marked for deletion and holds the own finalizer. -/
+def Waiting (own : String) (s : State) : Prop := s.gone = false ∧ s.marked = true ∧ own ∈ s.fins
+
+/-- Nothing is left to wait for: the matching mandatory deletion handlers have finished and no
+daemon/timer task of the object runs (a mismatching daemon that is still being stopped also delays
+the release — the conservative side). -/
+def Settled (s : State) : Prop := (s.matchDel = true → s.delDone = true) ∧ s.dmnLive = false
 
 end Kopf.C06
